@@ -57,6 +57,14 @@ def run(rep, tier):
         for _, func, kw in js:
             if func == "e1_job":
                 jobs.append(("checks.c10", "comp_job", {"module": kw["module"], "cls": kw["cls"], "cfg": kw["cfg"]}))
+    # condition() in a conditionally called method whose branch calls a method with validate_arguments (quick tier of C12 does
+    # not contain this shape; thorough does)
+    for encl in ("m1c", "m2c", "m1", "m2"):
+        for blk in ({"nb": False, "prio": False, "br": [{"c": True, "calls": 1}]},
+                    {"nb": True, "prio": True, "br": [{"c": True, "calls": 1}, {"c": True, "calls": 2}, {"c": False, "calls": 0}]}):
+            cfg = {"encl": encl, "block": blk, "val": True}
+            if not any(j[2]["cfg"] == cfg for j in jobs):
+                jobs.append(("checks.c10", "comp_job", {"module": "checks.c12", "cls": "CondH", "cfg": cfg}))
     for r in run_jobs(jobs):
         if r.get("error"):
             rep.errors.append(r["error"])
